@@ -213,26 +213,31 @@ impl<K, V, A: Allocator> CaoHashMap<K, V, A> {
         let keys = self.keys.as_ptr();
         let values = self.values.as_ptr();
 
-        let i = self.find_ind(h, &key);
+        let mut i = self.find_ind(h, &key);
         if hashes[i] != 0 {
             debug_assert_eq!(hashes[i], h);
-            // delete the old entry
+            // delete the old entry, no grow is triggered if the key overrides an existing value
             if std::mem::needs_drop::<K>() {
                 std::ptr::drop_in_place(keys.add(i));
             }
             if std::mem::needs_drop::<V>() {
                 std::ptr::drop_in_place(values.add(i));
             }
-        } else {
-            self.hashes_mut()[i] = h;
-            self.count += 1;
+            std::ptr::write(keys.add(i), key);
+            std::ptr::write(values.add(i), value);
+            return Ok(());
         }
-        std::ptr::write(keys.add(i), key);
-        std::ptr::write(values.add(i), value);
-        // delaying grow so that no grow is triggered if the key overrides an existing value
-        if Self::needs_grow(self.count, self.capacity) {
+        // a new entry: make room first, so that a failed allocation leaves the map as it was
+        // (the caller is told that the insert failed, the key must not be stored then)
+        if Self::needs_grow(self.count + 1, self.capacity) {
             self.grow()?;
+            // the arrays were reallocated and rehashed: find the free slot again
+            i = self.find_ind(h, &key);
         }
+        self.hashes_mut()[i] = h;
+        self.count += 1;
+        std::ptr::write(self.keys.as_ptr().add(i), key);
+        std::ptr::write(self.values.as_ptr().add(i), value);
         Ok(())
     }
 
